@@ -241,6 +241,11 @@ func RunLatch(p *plan.Plan) *plan.Result {
 		res.Nontrivial = true
 		st["fault_latch_calls_after_error"] += uint64(after)
 	}
+	if globalSnap != nil {
+		if d := globalSnap.Check(); d != "" {
+			st["globals_changed"]++
+		}
+	}
 	res.Digest = fmt.Sprintf("%016x", digest)
 	res.Sig = planSig(p)
 	return res
